@@ -37,6 +37,8 @@ CONFIGS = [
     # species / reactions requested in another order than the mechanism lists them: every component under its own name
     ('SDi-rev', 'SDi', {'mech': 'm.yaml', 'pressure': 1.0, 'species': ['O2', 'H2']}, 'temp', ['DI(O2)', 'DI(H2)']),
     ('SRi-rev', 'SRi', {'mech': 'm.yaml', 'pressure': 1.0, 'species': ['O2', 'H2']}, None, ['IRm(O2)', 'IRm(H2)']),
+    # a kept list that names a field twice, another kept field in between
+    ('user-multi+kept-twice', os.path.join(RECIPES, 'r_multi.py'), {}, 'temp density temp', ['twice_a_plus_rho', 'a_times_rho']),
     ('RRi-rev', 'RRi', {'mech': 'm.yaml', 'pressure': 1.0, 'reactions': [2, 0]}, None, ['R2', 'R0']),
 ]
 
@@ -70,9 +72,26 @@ def new_components(label, cell, P):
     raise KeyError(label)
 
 
-def expected(ref, cfg):
+def header_names(fs, root):
+    """Field names the output's Header lists (None when there is no such Header)."""
+    try:
+        lines = fs.lookup(root + '/Header').s.split('\n')
+        n = int(lines[1])
+        return [x.strip() for x in lines[2:2 + n]]
+    except Exception:
+        return None
+
+
+def expected(ref, cfg, outnames=None):
     label, recipe, kw, kept, newnames = cfg
     keptn = [k for k in (kept.split() if kept else []) if k in ref.fields]
+    if len(set(keptn)) < len(keptn) and outnames is not None:
+        # a kept list that names a field more than once: the statement does not say whether the field is then written once or
+        # once per mention, so the output's own choice of kept names is taken - as long as it is made of exactly the requested
+        # names - and every component must hold the data of the name it is stored under
+        got = outnames[:len(outnames) - len(newnames)] if len(outnames) >= len(newnames) else []
+        if got and set(got) == set(keptn) and outnames[len(got):] == newnames:
+            keptn = list(got)
     kidx = [ref.fields.index(k) for k in keptn]
     P = kw.get('pressure', 1.0) * ctstub.one_atm if 'pressure' in kw else None
     data, mins, maxs = [], [], []
@@ -180,7 +199,7 @@ def run_chef(mods, ref, cfg, serial, ctx, canary=False, free_T_cell=None, prior=
         except Exception as e:
             obl.fail('%s raised %s: %s' % (what, type(e).__name__, str(e)[:140]))
             return obl
-        exp = expected(ref, cfg)
+        exp = expected(ref, cfg, header_names(fs, '/work/out'))
         if canary:
             arr = exp.data[0][0] = exp.data[0][0].copy()
             arr.reshape(-1)[-1] = arr.reshape(-1)[-1] + 1
